@@ -124,4 +124,58 @@ theorem decShape_numTok (neg : Bool) (ip fr : Bytes) (hip : ip.all isDigit = tru
       have hd : numChar 0x2E = true := by decide
       simp [hb, hd]
 
+theorem numBody_dec (ip fr : Bytes) (hip : ip.all isDigit = true) (hfr : fr.all isDigit = true)
+    (hne : ip ≠ [] ∨ fr ≠ []) : numBody (ip ++ (if fr.isEmpty then [] else 0x2E :: fr)) = true := by
+  have a1 : ∀ d : Bytes, d.all isDigit = true → d.all (fun c => isDigit c || c == 0x2E) = true := by
+    intro d hd; simp only [List.all_eq_true] at *; intro c hc; simp [hd c hc]
+  have anyd : ∀ d : Bytes, d.all isDigit = true → d ≠ [] → d.any isDigit = true := by
+    intro d hd hn
+    cases d with
+    | nil => exact absurd rfl hn
+    | cons c r => simp only [List.all_cons, Bool.and_eq_true] at hd; simp [hd.1]
+  cases fr with
+  | nil =>
+    simp only [List.isEmpty_nil, if_true, List.append_nil]
+    exact numBody_digits ip hip (by rcases hne with h | h; exact h; exact absurd rfl h)
+  | cons c r =>
+    simp only [List.isEmpty_cons, Bool.false_eq_true, if_false]
+    unfold numBody
+    have f1 : (ip ++ 0x2E :: c :: r).filter (· == 0x2E) = [0x2E] := by
+      rw [List.filter_append, filter_dot_digits ip hip]
+      have : (c :: r).filter (· == 0x2E) = [] := filter_dot_digits _ hfr
+      simp [List.filter_cons, this]
+    have f2 : (ip ++ 0x2E :: c :: r).all (fun c => isDigit c || c == 0x2E) = true := by
+      have := a1 (c :: r) hfr
+      simp only [List.all_append, List.all_cons, Bool.and_eq_true] at this ⊢
+      exact ⟨a1 ip hip, by decide, this⟩
+    have f3 : (ip ++ 0x2E :: c :: r).any isDigit = true := by
+      have := anyd (c :: r) hfr (by simp)
+      simp only [List.any_append, List.any_cons, Bool.or_eq_true] at this ⊢
+      exact Or.inr (Or.inr this)
+    rw [f1, f2, f3]
+    cases ip <;> simp
+
+theorem decShape_isNumTok (neg : Bool) (ip fr : Bytes) (hip : ip.all isDigit = true) (hfr : fr.all isDigit = true)
+    (hne : ip ≠ [] ∨ fr ≠ []) : isNumTok (decShape neg ip fr) = true := by
+  have hb := numBody_dec ip fr hip hfr hne
+  unfold isNumTok decShape
+  cases neg
+  · simp only [Bool.false_eq_true, if_false, List.nil_append]
+    cases ip with
+    | cons c r =>
+      have hc : isDigit c = true := by simp only [List.all_cons, Bool.and_eq_true] at hip; exact hip.1
+      rw [List.cons_append, stripSign_digit c _ (isDigit_props c hc).2]
+      exact hb
+    | nil =>
+      cases fr with
+      | nil => simp at hne
+      | cons c r =>
+        simp only [List.nil_append, List.isEmpty_cons, Bool.false_eq_true, if_false] at hb ⊢
+        rw [stripSign_digit 0x2E _ (by decide)]
+        exact hb
+  · simp only [if_true, List.cons_append, List.nil_append]
+    have : stripSign (0x2D :: (ip ++ if fr.isEmpty = true then [] else 0x2E :: fr)) = ip ++ if fr.isEmpty = true then [] else 0x2E :: fr := by
+      simp [stripSign]
+    rw [this]; exact hb
+
 end C13L
